@@ -4,6 +4,7 @@ Deliberately dumb: attribute reads and constructor calls only."""
 from __future__ import annotations
 
 from .core import outcome, octs
+from .probe import decode_other
 
 
 def _hdr_proj(h):
@@ -50,6 +51,17 @@ def mk_tc(p, via="ctor"):
                                 data_len=5 + len(data) + 1, sec_header_flag=True)
         return PusTc.from_composite_fields(
             sph, PusTcDataFieldHeader(p["service"], p["subservice"], p["source"], p["ack"]), data)
+    if via == "setter":
+        # a history instead of a constructor call: other values first, one pack() (which may cache a CRC / a length),
+        # then the public setters bring the object to the wanted values
+        tc = PusTc(service=p["service"], subservice=p["subservice"], apid=(p["apid"] + 1) % 2048, app_data=data + b"\x55",
+                   seq_count=(p["seq"] + 1) % 16384, source_id=(p["source"] + 1) % 65536, ack_flags=p["ack"])
+        tc.pack()
+        tc.apid = p["apid"]
+        tc.seq_count = p["seq"]
+        tc.source_id = p["source"]
+        tc.app_data = data
+        return tc
     return PusTc(service=p["service"], subservice=p["subservice"], apid=p["apid"], app_data=data,
                  seq_count=p["seq"], source_id=p["source"], ack_flags=p["ack"])
 
@@ -62,6 +74,15 @@ def mk_tm(p, via="tm"):
         return Service17Tm(apid=p["apid"], subservice=p["subservice"], timestamp=bytes(p["stamp"]),
                            ssc=p["seq"], source_data=bytes(p["data"]), packet_version=p["ver"],
                            space_time_ref=p["timeref"], destination_id=p["dest"])
+    if via == "setter":
+        tm = PusTm(service=p["service"], subservice=p["subservice"], timestamp=bytes(p["stamp"]),
+                   source_data=bytes(p["data"]) + b"\x55\x55", apid=(p["apid"] + 1) % 2048, seq_count=p["seq"],
+                   message_counter=p["msgcnt"], space_time_ref=p["timeref"], destination_id=p["dest"],
+                   packet_version=p["ver"])
+        tm.pack()
+        tm.apid = p["apid"]
+        tm.tm_data = bytes(p["data"])
+        return tm
     return PusTm(service=p["service"], subservice=p["subservice"], timestamp=bytes(p["stamp"]),
                  source_data=bytes(p["data"]), apid=p["apid"], seq_count=p["seq"],
                  message_counter=p["msgcnt"], space_time_ref=p["timeref"], destination_id=p["dest"],
@@ -142,10 +163,13 @@ def op_tc_rt(a):
 
     def run():
         tc = mk_tc(a["p"], a.get("via", "ctor"))
+        sp = tc.to_space_packet().pack()          # before pack(): must not depend on what an earlier pack() left behind
         raw = tc.pack()
         plen = tc.packet_len
-        sp = tc.to_space_packet().pack()
+        if bytes(tc.to_space_packet().pack()) != bytes(sp):
+            sp = b"view changes across pack()"
         dec = PusTc.unpack(bytes(raw) + bytes(a["sfx"]))
+        decode_other("tc", PusTc.unpack)
         return {"octets": octs(raw), "plen": plen, "sp": octs(sp), "crcok": bool(check_pus_crc(bytes(raw))),
                 "dec": tc_proj(dec), "dplen": dec.packet_len, "eq": bool(dec == tc) and bool(tc == dec),
                 "repack": octs(dec.pack())}
@@ -179,12 +203,15 @@ def op_tm_rt(a):
     def run():
         via = a.get("via", "tm")
         tm = mk_tm(a["p"], via)
+        sp = _inner_tm(tm).to_space_packet().pack()
         raw = tm.pack()
         plen = _inner_tm(tm).packet_len
-        sp = _inner_tm(tm).to_space_packet().pack()
+        if bytes(_inner_tm(tm).to_space_packet().pack()) != bytes(sp):
+            sp = b"view changes across pack()"
         cls = Service17Tm if via == "srv17" else PusTm
         tsl = len(a["p"]["stamp"])
         dec = cls.unpack(bytes(raw) + bytes(a["sfx"]), tsl)
+        decode_other("srv17" if via == "srv17" else "tm", lambda b: cls.unpack(b, 7))
         eq = bool(_inner_tm(dec) == _inner_tm(tm)) and bool(_inner_tm(tm) == _inner_tm(dec))
         return {"octets": octs(raw), "plen": plen, "sp": octs(sp), "crcok": bool(check_pus_crc(bytes(raw))),
                 "dec": tm_proj(_inner_tm(dec)), "dplen": _inner_tm(dec).packet_len, "eq": eq,
